@@ -2,7 +2,12 @@ package main
 
 import (
 	"fmt"
+	"github.com/cloudwego/kitex/client"
+	"github.com/cloudwego/kitex/pkg/utils"
+	"github.com/kitex-contrib/xds/xdssuite"
 	"os"
+	"runtime"
+	"strings"
 	"sync"
 	"sync/atomic"
 	"time"
@@ -358,4 +363,112 @@ func lockStress(c *ctx, rt string, n int) {
 	c.count("lock-stress", 1)
 	c.emit(obj{"op": "handlers-order", "kind": "lock-stress", "rt": rt, "n": fmt.Sprint(n),
 		"obs": obj{"events": []string{}, "applied": applied, "watchersDone": watchersDone, "changes": atomic.LoadInt64(&changes), "state": state}})
+}
+
+// cbPolicyBeforeData: the REAL circuit-breaker handler of xdssuite is registered; lookups wait for clusters that the next
+// update delivers with an outlier detection. At the moment a lookup exposes its cluster, the breaker configuration
+// derived from that update is already in force ("policy before data" with the suite's own handler, not a test double).
+// On one processor, so that "right after the lookup returned" leaves no room for a late applier to slip in first.
+func cbPolicyBeforeData(c *ctx) {
+	old := runtime.GOMAXPROCS(1)
+	defer runtime.GOMAXPROCS(old)
+	w, err := newWorld(worldOpts{ndsNotRequired: true, fetchTimeout: 3 * time.Second})
+	if err != nil {
+		fmt.Println("c07h: world:", err)
+		return
+	}
+	defer w.close()
+	useBackend(w.m)
+	o := &client.Options{}
+	xdssuite.NewCircuitBreaker(xdssuite.WithServiceCircuitBreak(true)).F(o, &utils.Slice{})
+	suite := o.CBSuite
+	rounds, inForce, stale := 12, 0, 0
+	var notes []string
+	for k := 0; k < rounds; k++ {
+		name := fmt.Sprintf("pb%02d", k)
+		thr, vol := 10+k, 100+k
+		type out struct {
+			res string
+			cfg obj
+		}
+		ch := make(chan out, 1)
+		go func() {
+			res := w.get(rtOf("cds"), name)
+			ch <- out{res, dumpCB(suite)} // the configuration as the caller finds it when the lookup has exposed the cluster
+		}()
+		if !w.waitFor(func() bool {
+			for _, n := range w.m.VerifPending()[rtOf("cds")] {
+				if n == name {
+					return true
+				}
+			}
+			return false
+		}, 3*time.Second) {
+			notes = append(notes, name+": the lookup never waited")
+			continue
+		}
+		w.feed(mkResp(xdsresource.ClusterTypeURL, fmt.Sprintf("v%d", k+1), fmt.Sprintf("n%d", k+1), []*anypb.Any{clusterWithOutlier(name, gOutlier{Present: true, Thr: thr, Vol: vol})}))
+		select {
+		case r := <-ch:
+			cfg, _ := r.cfg[name].([]interface{})
+			if strings.HasPrefix(r.res, "val:") && len(cfg) == 3 && cfg[0] == true && cfg[1] == thr && cfg[2] == int64(vol) {
+				inForce++
+			} else if strings.HasPrefix(r.res, "val:") {
+				stale++
+				notes = append(notes, fmt.Sprintf("%s exposed (%s) while its breaker configuration was %v (update says enabled %d%%/%d)", name, r.res, r.cfg[name], thr, vol))
+			} else {
+				notes = append(notes, name+": lookup returned "+r.res)
+			}
+		case <-time.After(5 * time.Second):
+			notes = append(notes, name+": lookup hangs")
+		}
+		w.settle()
+	}
+	if len(notes) > 3 {
+		notes = notes[:3]
+	}
+	c.count("cb-policy-before-data", 1)
+	c.emit(obj{"op": "handlers-order", "kind": "cb-policy", "rt": "cds", "n": fmt.Sprint(rounds), "obs": obj{"events": []string{}, "rounds": rounds, "inForce": inForce, "stale": stale, "notes": notes}})
+}
+
+// handlerPanic: a registered update handler panics while an update is applied (user code can). The client's receive loop
+// recovers and ends - that is what the code does with a panic - but nothing may stay locked behind it: lookups of cached
+// names keep being served and lookups of other names end at their deadline.
+func handlerPanic(c *ctx, rt string) {
+	w, err := newWorld(worldOpts{ndsNotRequired: true, fetchTimeout: 300 * time.Millisecond})
+	if err != nil {
+		fmt.Println("c07h: world:", err)
+		return
+	}
+	defer w.close()
+	T := rtOf(rt)
+	w.m.VerifWatch(T, "kept", false)
+	w.m.VerifWatch(T, "boom", false)
+	w.settle()
+	w.push(mkResp(urlOf(rt), "v1", "n1", []*anypb.Any{anyStamped(rt, "kept", "kept#1")}))
+	w.m.RegisterXDSUpdateHandler(T, func(res map[string]xdsresource.Resource) {
+		if _, ok := res["boom"]; ok {
+			panic("verif: update handler panics on this resource")
+		}
+	})
+	w.feed(mkResp(urlOf(rt), "v2", "n2", []*anypb.Any{anyStamped(rt, "kept", "kept#2"), anyStamped(rt, "boom", "boom#2")}))
+	time.Sleep(50 * time.Millisecond)
+	look := func(name string) string {
+		ch := make(chan string, 1)
+		go func() { ch <- w.get(T, name) }()
+		select {
+		case r := <-ch:
+			return r
+		case <-time.After(4 * time.Second):
+			w.hung = true
+			return "hang"
+		}
+	}
+	cached := look("kept")
+	missing := "skipped"
+	if cached != "hang" {
+		missing = look("never-delivered")
+	}
+	c.count("handler-panic", 1)
+	c.emit(obj{"op": "handlers-order", "kind": "handler-panic", "rt": rt, "n": "kept", "obs": obj{"events": []string{}, "cached": cached, "missing": missing}})
 }
